@@ -86,12 +86,13 @@ private theorem valid_unpack {c : Client} {h : SH} (hv : validHRR c h = true) :
     checkSH c.fixed none h = none ∧ h.ech = false ∧ h.share = 0 ∧
     (h.group ≠ 0 → (curvesOf c.defaultCurves c.exts).contains h.group = true ∧
       (sharesOf c.exts).any (·.1 == h.group) = false ∧ classical h.group = true) ∧
-    (h.group ≠ 0 ∨ h.cookie ≠ none) ∧ c.pskInUse = false ∧ c.realECH = false ∧ c.exts.any isKeyShare = true := by
+    (h.group ≠ 0 ∨ h.cookie ≠ none) ∧ c.pskInUse = false ∧ c.realECH = false ∧ c.exts.any isKeyShare = true ∧
+    versionAdvertised c = true := by
   unfold validHRR at hv
   simp only [Bool.and_eq_true, Bool.or_eq_true, Bool.not_eq_true', beq_iff_eq, bne_iff_ne, ne_eq,
     Option.isNone_iff_eq_none, Option.isSome_iff_ne_none] at hv
-  obtain ⟨⟨⟨⟨⟨⟨⟨h1, h2⟩, h3⟩, h4⟩, h5⟩, h6⟩, h7⟩, h8⟩ := hv
-  refine ⟨h1, h2, h3, ?_, h5, h6, h7, h8⟩
+  obtain ⟨⟨⟨⟨⟨⟨⟨⟨h0, h1⟩, h2⟩, h3⟩, h4⟩, h5⟩, h6⟩, h7⟩, h8⟩ := hv
+  refine ⟨h1, h2, h3, ?_, h5, h6, h7, h8, h0⟩
   intro hg
   rcases h4 with h4 | h4
   · exact absurd h4 hg
@@ -108,9 +109,9 @@ private theorem newShares_valid {c : Client} {h : SH} (fresh : Bytes) (hv : vali
 
 private theorem stepAt_valid {c : Client} {h : SH} (fresh : Bytes) (idx : Nat) (hv : validHRR c h = true) :
     hrrStepAt c h fresh idx = utlsSection c h (sharesAfter c h fresh) idx := by
-  obtain ⟨h1, h2, h3, _, h5, _, h7, _⟩ := valid_unpack hv
+  obtain ⟨h1, h2, h3, _, h5, _, h7, _, h9⟩ := valid_unpack hv
   unfold hrrStepAt
-  rw [h1]
+  rw [if_neg (by simp [h9]), h1]
   simp only
   rw [if_neg (by simp [h7]), if_neg (by simp [h2])]
   rw [if_neg (by intro ⟨a, b⟩; rcases h5 with h5 | h5 <;> contradiction), if_neg (by simp [h3]), newShares_valid fresh hv]
@@ -137,7 +138,7 @@ private theorem section_valid {c : Client} {h : SH} (fresh : Bytes) (j : Nat) (h
       match marshal c.pol c.fixed (pre c h fresh j) with
       | .error e => .fail (.marshal e)
       | .ok (exts3, raw) => .sent exts3 raw := by
-  obtain ⟨_, _, _, _, _, h6, _, h8⟩ := valid_unpack hv
+  obtain ⟨_, _, _, _, _, h6, _, h8, _⟩ := valid_unpack hv
   have hstep : cookieStep (c.exts.map (setKeyShares (sharesAfter c h fresh))) h.cookie j = .ok (pre c h fresh j) := by
     unfold cookieStep pre effCookie
     cases hck : h.cookie with
@@ -225,17 +226,19 @@ list is `expected …`: the first list, slot by slot through `slot` (same positi
 the echoed cookie inserted at an index `j` with `j < len`, `j = 0` for `len ≤ 2`, `j + 3 ≤ len`
 otherwise — and only when there was no cookie extension to overwrite. The bytes sent are the
 marshalling of exactly this list under the **same non-extension fields** `c.fixed`, and the padding
-slot was recomputed for the unpadded length of this very list. -/
+slot was recomputed for the unpadded length of this very list. The one other outcome is the marshaller's
+own refusal: if this list no longer fits the uint16 / uint24 length fields (a huge cookie), the step
+returns the "too long" error and nothing is sent. -/
 theorem hrr_diff (c : Client) (h : SH) (fresh : Bytes) (s : Prng.Stream) (raw1 : Bytes) (out : Outcome)
     (hfirst : marshal c.pol c.fixed c.exts = .ok (c.exts, raw1))
     (hv : validHRR c h = true)
     (hout : hrrStep c h fresh s = some out) :
-    ∃ exts' raw2 j,
-      out = .sent exts' raw2 ∧
-      marshalCore c.fixed exts' = .ok raw2 ∧
+    ∃ exts' j,
       exts' = expected c h fresh j (unpaddedLen c.fixed exts') ∧
-      j < c.exts.length ∧ (c.exts.length ≤ 2 → j = 0) ∧ (3 ≤ c.exts.length → j + 3 ≤ c.exts.length) := by
-  obtain ⟨_, _, _, _, _, _, _, h8⟩ := valid_unpack hv
+      j < c.exts.length ∧ (c.exts.length ≤ 2 → j = 0) ∧ (3 ≤ c.exts.length → j + 3 ≤ c.exts.length) ∧
+      ((fits c.fixed exts' = true ∧ ∃ raw2, out = .sent exts' raw2 ∧ marshalCore c.fixed exts' = .ok raw2) ∨
+       (fits c.fixed exts' = false ∧ out = .fail (.marshal .tooLong))) := by
+  obtain ⟨_, _, _, _, _, _, _, h8, _⟩ := valid_unpack hv
   have hne : 1 ≤ c.exts.length := by
     obtain ⟨x, hx, _⟩ := List.any_eq_true.mp h8
     cases hc : c.exts with
@@ -250,14 +253,23 @@ theorem hrr_diff (c : Client) (h : SH) (fresh : Bytes) (s : Prng.Stream) (raw1 :
     obtain ⟨r1, r2, r3⟩ := cookie_index_range _ _ _ hci
     have hj := r3 hne
     obtain ⟨_, hpad, hcore⟩ := marshal_inv hfirst
-    obtain ⟨hread, hfix, _⟩ := marshalCore_inv hcore
-    obtain ⟨raw2, hm⟩ := marshal_ok (pol := c.pol) (f := c.fixed) (exts := pre c h fresh j)
-      (by rw [pre_padding]; exact hpad)
-      (fun e he => .inr (pre_readable c h fresh j hread e he)) hfix
-    have hres : out = .sent ((pre c h fresh j).map (updatePadding c.pol (unpaddedLen c.fixed (pre c h fresh j)))) raw2 := by
+    obtain ⟨hread, hfix, _, _⟩ := marshalCore_inv hcore
+    have hpp : ((pre c h fresh j).filter isPadding).length ≤ 1 := by rw [pre_padding]; exact hpad
+    have hlist : (pre c h fresh j).map (updatePadding c.pol (unpaddedLen c.fixed (pre c h fresh j))) =
+        expected c h fresh j (unpaddedLen c.fixed ((pre c h fresh j).map (updatePadding c.pol (unpaddedLen c.fixed (pre c h fresh j))))) := by
+      rw [unpaddedLen_map_update, pre_expected]
+    refine ⟨_, j, hlist, hj, r1, r2, ?_⟩
+    cases hfit : fits c.fixed ((pre c h fresh j).map (updatePadding c.pol (unpaddedLen c.fixed (pre c h fresh j)))) with
+    | true =>
+      left
+      obtain ⟨raw2, hm⟩ := marshal_ok (pol := c.pol) (f := c.fixed) (exts := pre c h fresh j) hpp
+        (fun e he => .inr (pre_readable c h fresh j hread e he)) hfix hfit
+      refine ⟨rfl, raw2, ?_, (marshal_inv hm).2.2⟩
       rw [← hout, stepAt_valid fresh j hv, section_valid fresh j hv hj, hm]
-    refine ⟨_, raw2, j, hres, (marshal_inv hm).2.2, ?_, hj, r1, r2⟩
-    rw [unpaddedLen_map_update, pre_expected]
+    | false =>
+      right
+      refine ⟨rfl, ?_⟩
+      rw [← hout, stepAt_valid fresh j hv, section_valid fresh j hv hj, marshal_tooLong hpp hfit]
 
 /-! ## consequences in the shape the wire monitor checks -/
 
@@ -387,7 +399,7 @@ theorem hrr_cookie_echoed (c : Client) (h : SH) (fresh : Bytes) (j u : Nat) :
 * a key_share in ServerHello form ⇒ `decode_error`.
 No second ClientHello exists in any of these outcomes (`Outcome.abort` carries none). -/
 theorem hrr_invalid_abort (c : Client) (h : SH) (fresh : Bytes) (idx : Nat)
-    (hchk : checkSH c.fixed none h = none) (hre : c.realECH = false) (hech : h.ech = false) :
+    (hver : versionAdvertised c = true) (hchk : checkSH c.fixed none h = none) (hre : c.realECH = false) (hech : h.ech = false) :
     (h.group = 0 ∧ h.cookie = none → hrrStepAt c h fresh idx = .abort alertIllegalParameter "unnecessary-hrr") ∧
     (¬ (h.group = 0 ∧ h.cookie = none) → h.share ≠ 0 →
       hrrStepAt c h fresh idx = .abort alertDecodeError "malformed-keyshare") ∧
@@ -405,17 +417,17 @@ theorem hrr_invalid_abort (c : Client) (h : SH) (fresh : Bytes) (idx : Nat)
         | .ok shares => utlsSection c h shares idx) = X → hrrStepAt c h fresh idx = X := by
     intro X hnc hs hX
     unfold hrrStepAt
-    rw [hchk]; simp only
+    rw [if_neg (by simp [hver]), hchk]; simp only
     rw [if_neg (by simp [hre]), if_neg (by simp [hech]), if_neg hnc, if_neg (by simp [hs])]
     exact hX
   refine ⟨?_, ?_, ?_, ?_, ?_⟩
   · intro hn
     unfold hrrStepAt
-    rw [hchk]; simp only
+    rw [if_neg (by simp [hver]), hchk]; simp only
     rw [if_neg (by simp [hre]), if_neg (by simp [hech]), if_pos hn]
   · intro hnc hs
     unfold hrrStepAt
-    rw [hchk]; simp only
+    rw [if_neg (by simp [hver]), hchk]; simp only
     rw [if_neg (by simp [hre]), if_neg (by simp [hech]), if_neg hnc, if_pos hs]
   · intro hs hg hl
     apply pre0 _ (fun ⟨a, _⟩ => hg a) hs
@@ -435,12 +447,21 @@ theorem hrr_invalid_abort (c : Client) (h : SH) (fresh : Bytes) (idx : Nat)
 version, forbidden extension, session id not echoed, compression, cipher suite not offered or not a
 TLS 1.3 suite, suite changed after a retry) is an abort with an alert, and is the outcome of the step. -/
 theorem hrr_bad_fields_abort (c : Client) (h : SH) (fresh : Bytes) (idx : Nat) (o : Outcome)
-    (hchk : checkSH c.fixed none h = some o) :
+    (hver : versionAdvertised c = true) (hchk : checkSH c.fixed none h = some o) :
     hrrStepAt c h fresh idx = o ∧ ∃ a cls, o = .abort a cls := by
-  refine ⟨by unfold hrrStepAt; rw [hchk], ?_⟩
+  refine ⟨by unfold hrrStepAt; rw [if_neg (by simp [hver]), hchk], ?_⟩
   unfold checkSH at hchk
   repeat' split at hchk
   all_goals first | (cases hchk; exact ⟨_, _, rfl⟩) | cases hchk
+
+/-- **TLS 1.3 not advertised on the wire** (no supported_versions extension listing it, legacy_version
+below it): the HelloRetryRequest is refused with `protocol_version` before any other check — a
+ClientHello whose spec merely *allows* 1.3 through `TLSVersMax` never settles on it. -/
+theorem hrr_version_not_advertised (c : Client) (h : SH) (fresh : Bytes) (idx : Nat)
+    (hver : versionAdvertised c = false) :
+    hrrStepAt c h fresh idx = .abort alertProtocolVersion "version-not-advertised" := by
+  unfold hrrStepAt
+  rw [if_pos (by simp [hver])]
 
 /-- a ServerHello that changes the suite the HelloRetryRequest chose is rejected with `illegal_parameter`. -/
 theorem suite_change_aborts (f : Fixed) (p : Nat) (h : SH)
@@ -510,10 +531,14 @@ theorem hrr_no_panic (c : Client) (h : SH) (fresh : Bytes) (s : Prng.Stream) (ou
           rw [hl']
           simp only
           split <;> exact ⟨by simp, by simp⟩
+    by_cases hver0 : versionAdvertised c = false
+    · rw [hrr_version_not_advertised c h fresh j hver0]; exact ⟨by simp, by simp⟩
+    have hver : versionAdvertised c = true := by simpa using hver0
     unfold hrrStepAt
+    rw [if_neg (by simp [hver])]
     split
     · rename_i o hchk
-      obtain ⟨a, cls, rfl⟩ := (hrr_bad_fields_abort c h fresh j o hchk).2
+      obtain ⟨a, cls, rfl⟩ := (hrr_bad_fields_abort c h fresh j o hver hchk).2
       exact ⟨by simp, by simp⟩
     · split
       · exact ⟨by simp, by simp⟩
@@ -581,12 +606,13 @@ theorem hrr_wire_diff (c : Client) (h : SH) (fresh : Bytes) (s : Prng.Stream) (r
     (hv : validHRR c h = true)
     (hout : hrrStep c h fresh s = some out)
     (hw1 : wireWF c.fixed c.exts = true) :
-    ∃ exts' raw2,
-      out = .sent exts' raw2 ∧
+    ∃ exts',
       split raw1 = some ⟨c.fixed, true, wireExts c.exts⟩ ∧
-      (wireWF c.fixed exts' = true → split raw2 = some ⟨c.fixed, true, wireExts exts'⟩) ∧
-      without changeable (wireExts exts') = without changeable (wireExts c.exts) := by
-  obtain ⟨exts', raw2, j, ho, hcore, hexp, hj, _, _⟩ := hrr_diff c h fresh s raw1 out hfirst hv hout
+      without changeable (wireExts exts') = without changeable (wireExts c.exts) ∧
+      ((∃ raw2, out = .sent exts' raw2 ∧
+          (wireWF c.fixed exts' = true → split raw2 = some ⟨c.fixed, true, wireExts exts'⟩)) ∨
+       (fits c.fixed exts' = false ∧ out = .fail (.marshal .tooLong))) := by
+  obtain ⟨exts', j, hexp, hj, _, _, hcase⟩ := hrr_diff c h fresh s raw1 out hfirst hv hout
   have hne : c.exts.isEmpty = false := by
     cases hc : c.exts with
     | nil => rw [hc] at hj; simp at hj
@@ -602,12 +628,9 @@ theorem hrr_wire_diff (c : Client) (h : SH) (fresh : Bytes) (s : Prng.Stream) (r
       split
       · simpa using hne
       · unfold insertAt; simp
-  refine ⟨exts', raw2, ho, ?_, ?_, ?_⟩
+  refine ⟨exts', ?_, ?_, ?_⟩
   · have := split_marshalCore (marshal_inv hfirst).2.2 hw1
     rw [hne] at this; exact this
-  · intro hw2
-    have := split_marshalCore hcore hw2
-    rw [hne'] at this; exact this
   · rw [hexp]
     unfold expected
     simp only
@@ -624,6 +647,13 @@ theorem hrr_wire_diff (c : Client) (h : SH) (fresh : Bytes) (s : Prng.Stream) (r
         unfold insertAt
         rw [wireExts_append, without_append, without_wire_changeable (e := cookie ck) rfl, ← without_append,
           ← wireExts_append, List.take_append_drop]
+  · rcases hcase with ⟨_, raw2, ho, hcore⟩ | ⟨hf, ho⟩
+    · left
+      refine ⟨raw2, ho, ?_⟩
+      intro hw2
+      have := split_marshalCore hcore hw2
+      rw [hne'] at this; exact this
+    · exact .inr ⟨hf, ho⟩
 
 /-! ## non-vacuity: a concrete client, a concrete HelloRetryRequest -/
 
@@ -672,6 +702,10 @@ example : hrrStepAt exClient { exHRR with group := 24 } [] 0 = .abort alertIlleg
 example : hrrStepAt exClient { exHRR with group := 0, cookie := none } [] 0 = .abort alertIllegalParameter "unnecessary-hrr" := by
   decide
 
+/-- a hello without supported_versions (legacy_version 0x0303) never settles on TLS 1.3. -/
+example : hrrStepAt { exClient with exts := [keyShare [(29, List.replicate 32 1)]] } exHRR [] 0 =
+    .abort alertProtocolVersion "version-not-advertised" := by decide
+
 /-- `cookie_index_range` at the small lengths: nothing is drawn, the index is 0. -/
 example : cookieIndex 1 [] = some 0 ∧ cookieIndex 2 [] = some 0 ∧ cookieIndex 0 [] = some 0 := by decide
 
@@ -690,7 +724,7 @@ statement fails: the Firefox parrots list ffdhe2048/ffdhe3072, which uTLS cannot
 
 /-- `validHRR` with "served by `generateECDHEKey`" weakened to "not a hybrid / GREASE code point". -/
 def validHRRFull (c : Client) (h : SH) : Bool :=
-  (checkSH c.fixed none h).isNone && !h.ech && h.share == 0 &&
+  versionAdvertised c && (checkSH c.fixed none h).isNone && !h.ech && h.share == 0 &&
   (h.group == 0 ||
     ((curvesOf c.defaultCurves c.exts).contains h.group && !(sharesOf c.exts).any (·.1 == h.group) &&
       !(h.group == 4588 || h.group == 25497 || h.group == 25498 || isGreaseU16 h.group))) &&
